@@ -4,7 +4,7 @@ import copy
 from sym import *
 import sym
 from model import *
-from evalr import SeqV, StructV, EnumV, RefV, Cell, Top, is_term
+from evalr import SeqV, StructV, EnumV, RefV, Cell, Top, is_term, fcopy
 
 class Step:
     pass
@@ -28,8 +28,8 @@ def analyse_step(facts, ty, body, kind, preset=None):
     that no public operation ever writes (they keep the constructor's constant: a trivially inductive fact)"""
     I = new_interp(facts)
     selfv = I.sym_value(norm_ty(ty), 'self')
-    for k_, v_ in (preset or {}).items(): selfv.fields[k_] = copy.deepcopy(v_)
-    pre = copy.deepcopy(selfv)
+    for k_, v_ in (preset or {}).items(): selfv.fields[k_] = fcopy(v_)
+    pre = fcopy(selfv)
     ps = params_of(body)
     args = [I.sym_value(norm_ty(t), n) for n, t in ps[1:]]
     s = Step(); s.I = I; s.fn = body; s.kind = kind; s.args = args; s.pre = pre
@@ -120,7 +120,7 @@ def prove_field_invariant(facts, ty, field, rhs_fn, arg_subst_fn=None, what=''):
         elif k in ('mut', 'builder'):
             I = new_interp(facts)
             selfv = I.sym_value(norm_ty(ty), 'self')
-            pre = copy.deepcopy(selfv)
+            pre = fcopy(selfv)
             ps = params_of(b)
             args = [I.sym_value(norm_ty(t), n) for n, t in ps[1:]]
             if k == 'mut':
